@@ -170,6 +170,13 @@ pub mod typechecker {
             }
         }
 
+        /// reduced `Signature`: the two fields get_function reads (`types` dropped), lists as static slices
+        #[derive(Clone, Copy, Debug, PartialEq, Eq)]
+        pub struct Signature {
+            pub parameter_types: &'static [Type],
+            pub return_type: Type,
+        }
+
         /// reduced: only the variant the unit matches on, plus "anything else"
         #[derive(Clone, Debug, PartialEq, Eq, Hash)]
         pub enum TypeDefinition {
@@ -252,6 +259,83 @@ pub mod value {
 }
 
 pub mod codegen {
+    use crate::typechecker::{info::TypeInfo, types};
+    use check::{check_roto_type_reflect, FunctionRetrievalError, RotoFunc};
+    use std::marker::PhantomData;
+
+    pub trait OptCtx {}
+    pub struct NoCtx;
+    impl OptCtx for NoCtx {}
+
+    /// function names are interned: `Name(k)`; `format!("pkg.{name}")` becomes `pkg_name(name)`
+    #[derive(Clone, Copy, Debug, PartialEq, Eq)]
+    pub struct Name(pub u32);
+    impl Name {
+        pub fn to_string(&self) -> String {
+            String::new()
+        }
+    }
+    pub fn pkg_name(name: Name) -> Name {
+        Name(name.0 + 0x100)
+    }
+    #[derive(Clone, Copy, Debug, PartialEq, Eq)]
+    pub struct FuncId(pub u32);
+    /// stand-in for cranelift_jit::JITModule: the finalized address of function `id`
+    #[derive(Clone, Copy)]
+    pub struct Jit;
+    impl Jit {
+        pub fn get_finalized_function(&self, id: FuncId) -> *const u8 {
+            (0x1000 + id.0 as usize * 16) as *const u8
+        }
+    }
+    #[derive(Clone, Copy)]
+    pub struct ModuleData {
+        pub cranelift_jit: Jit,
+    }
+    /// stand-in for SharedModuleData(Arc<ModuleData>): `token` identifies the module kept alive
+    #[derive(Clone, Copy)]
+    pub struct SharedModuleData(pub ModuleData, pub u32);
+    /// stand-in for HashMap<String, FunctionInfo>
+    pub struct Functions {
+        pub entries: [Option<(Name, FunctionInfo)>; 3],
+    }
+    impl Functions {
+        pub fn get(&self, k: &Name) -> Option<&FunctionInfo> {
+            let mut i = 0;
+            while i < 3 {
+                if let Some((n, f)) = &self.entries[i] {
+                    if n == k {
+                        return Some(f);
+                    }
+                }
+                i += 1;
+            }
+            None
+        }
+        pub fn keys(&self) -> core::iter::Empty<&String> {
+            core::iter::empty()
+        }
+    }
+
+    /*@STRUCT_FUNCTIONINFO@*/
+
+    /*@STRUCT_TYPEDFUNC@*/
+
+    pub struct Module<C: OptCtx> {
+        pub functions: Functions,
+        pub inner: SharedModuleData,
+        pub type_info: TypeInfo,
+        pub _ctx: PhantomData<C>,
+    }
+
+    impl<Ctx: OptCtx> Module<Ctx> {
+        pub fn get_function<F: RotoFunc>(
+            &mut self,
+            name: Name,
+        ) -> Result<TypedFunc<Ctx, F>, FunctionRetrievalError>
+        /*@FN_GET_FUNCTION_BODY@*/
+    }
+
     pub mod check {
         use crate::leaf::{Asn, IpAddr, Prefix};
         use crate::{
